@@ -180,7 +180,7 @@ def graph_is_directed(repo: Repo, fi: FuncInfo, name: str = "G", depth: int = 2)
     return None
 
 
-def writer_sides_independent(rep, oid: str):
+def writer_sides_independent(rep, oid: str, required: bool = True):
     """view writer: a reaction's reactant entries and product entries are written independently of each other.  An arc that is only written when
     the species is NOT on the other side (`if s in e.reactants: .. elif s in e.products: ..`) gives a species that occurs on both sides of one
     reaction (a catalyst, an autocatalytic step) a single arc - every consumer of the view then sees another reaction."""
@@ -200,6 +200,8 @@ def writer_sides_independent(rep, oid: str):
                     negative = (isinstance(t.ops[0], ast.In) and not s) or (isinstance(t.ops[0], ast.NotIn) and s)
                     if other_side and negative:
                         bad.append((c, norm(t)))
+    if n == 0 and not required:
+        return  # the arcs are written somewhere the rule cannot see; properties that need the writer's table say so themselves
     rep.ob(oid, "R5", fi, (not bad) if n else None, alpha(bad[0][0], fi.node)[:80] if bad else f"{n} add_edge call(s)",
            "reactant arcs and product arcs of a reaction are written independently (a species on both sides gets both arcs)" +
            (f": this arc is written only when `{bad[0][1]}` fails" if bad else ""), node=bad[0][0] if bad else fi.node)
